@@ -16,7 +16,7 @@ Tie to code : the real validators are run in subprocesses — pure Python (AUTOB
               4-tuples with the RFC 3629 grammar), second reference = CPython's strict decoder. The executable Lean models
               (`utf8.validate.py`, `utf8.validate.nvx`) are compared call by call with the implementations they mirror.
 
-Self-test (scratch copy, VERIF_REPO; 2026-09-23): 11 mutations detected with concrete replays, 2 harmless rewrites silent — table in SELFTEST at the end of this file.
+Self-test (scratch copy, VERIF_REPO; 2026-09-23): 13 mutations detected with concrete replays, 2 harmless rewrites silent — table in SELFTEST at the end of this file.
 """
 import json
 import os
@@ -292,7 +292,7 @@ def shrink(ctx, scratch, mode, impl, internal, chunks, reason):
     cur = list(chunks)
     budget = 60 if ctx.tier == "quick" else 600
     for _ in range(14):
-        if time.time() - ctx.t0 > budget:
+        if time.time() - getattr(ctx, "c09_run_t0", ctx.t0) > budget:   # measured from the start of run(): a Lean rebuild does not eat it
             break
         cands = []
         for i in range(len(cur)):
@@ -349,6 +349,8 @@ def run(ctx):
                 "with empty chunks, stopping at or continuing after the first reject. Every implementation path (py; nvx "
                 "wrapper default + impl 1..4; internal table/unrolled) is judged by the Lean grammar (utf8.judge / utf8.enum spec); "
                 "non-trivial = distinct (chunk list) with at least one multi-byte lead, fault or chunk boundary")
+    import time
+    ctx.c09_run_t0 = time.time()
     scratch = Path(tempfile.mkdtemp(prefix="abverif-c09-"))
     try:
         internal = True
@@ -589,7 +591,8 @@ def _run(ctx, res, scratch, internal):
     return res
 
 
-# Self-test outcomes: `python3 tools_selftest_c09.py` (scratch copy of /repo/src, VERIF_REPO; quick tier; 2026-09-23).
+# Self-test outcomes: `python3 tools_selftest_c09.py` (scratch copy of /repo/src, VERIF_REPO; quick tier; 2026-09-23, re-run after
+# /repo c2c187d5 repaired F1: 13 mutations detected with concrete replays, 2 harmless rewrites silent).
 SELFTEST = """
 mutation (single edit in the scratch copy)                      exit  proof_problems                 concrete replay (key: impl chunks)
 py table cell [256+5*16+7] 1->2 (surrogates)                      1   tablePy_eq_rfc fails           py-accepts-ill-formed: py [eda0]; py-offender-total-index-wrong: py [eda000]
@@ -603,8 +606,13 @@ C table loop: total_index += i + 1 on reject                      1   -         
 C loops: `vld->state = state` dropped at the end of a call        1   -                              nvx-accepts-ill-formed: nvx.impl1 [c2, 00]; nvx-rejects-well-formed-prefix [c2, 80]
 py UTF8_REJECT = 2                                                1   consts_eq_rfc fails            py-accepts-ill-formed: py [80]; py-rejects-well-formed-prefix: py [c2]
 websocket/__init__: AUTOBAHN_USE_NVX=0 no longer disables NVX     1   -                              selection-ignores-AUTOBAHN_USE_NVX; py-forgets-reject-on-next-call: py [80, 80]
-harmless: py table literals re-based, `state << 4` -> `* 16`      0   -                              (silent; only the known finding F1)
-harmless: C macro branches swapped, `==||==||==` -> range         0   -                              (silent; only the known finding F1)
+C table loop: `&& state != 1` re-added (F1 regression)            1   loops_run_in_reject fails      nvx-forgets-reject-on-next-call: nvx.impl1 [80, 80]
+                                                                      (so nvx_eq_py cannot build)
+C unrolled loop: `&& state != 1` re-added (F1 regression)         1   loops_run_in_reject fails      nvx-forgets-reject-on-next-call: nvx.impl2 [80, 80]
+harmless: py table literals re-based, `state << 4` -> `* 16`      0   -                              (silent)
+harmless: C macro branches swapped, `==||==||==` -> range         0   -                              (silent)
+(on the selection mutation the "pure" worker ends up on the INSTALLED /venv `_nvx_utf8validator` .so, which on 2026-09-23 was
+ still the pre-c2c187d5 build and shows F1; the check itself always rebuilds the C from the source tree)
 (every table/constant mutation also shows the differing cells in the evidence notes, e.g.
  "utf8validator.py UTF8VALIDATOR_DFA: 32 cell(s) differ from the RFC automaton, e.g. state 5 octet 0xa0: source says 2, RFC says 1")
 """
